@@ -39,7 +39,7 @@ def _high_targets():
 
 @st.composite
 def _cases(draw):
-    s = draw(gen.score_sets(max_size=8, modes=MODES, mag=1e6, huge_easy="beyond-float", containers=("f64", "f64", "f32", "list", "neg-int", "pos-int", "neg-f32", "f128", "series")))
+    s = draw(gen.score_sets(max_size=8, modes=MODES, mag=1e6, huge_easy="beyond-float", containers=("f64", "f64", "f32", "list", "neg-int", "pos-int", "neg-f32", "f128", "series", "swapped")))
     lows = draw(st.lists(_low_targets(), min_size=1, max_size=2))
     highs = draw(st.lists(_high_targets(), min_size=1, max_size=2))
     interior = draw(st.lists(st.floats(min_value=0.01, max_value=0.99), min_size=0, max_size=2))
